@@ -12,24 +12,28 @@ open CbiVerif.Compilers CbiVerif.Compilers.Spec CbiVerif.Gen.Compilers CbiVerif.
 
 /-- `icpx -fsycl -fopenmp`: `icpx` resolves through its alias to `icx`; two configurations — the default pass
 with both modes, the default SYCL device pass with the pass's defines and its `sycl` mode -/
-example : emulate builtinMap [] "icpx" ["-fsycl", "-fopenmp", "-DX", "a.cpp"] =
+example : emulate builtinMap {} "icpx" ["-fsycl", "-fopenmp", "-DX", "a.cpp"] =
     .ok ([⟨"sycl-spir64", ["X", "__SYCL_DEVICE_ONLY__", "__SPIR__", "__SPIRV__", "SYCL_LANGUAGE_VERSION"], [], []⟩,
           ⟨"default", ["X", "SYCL_LANGUAGE_VERSION", "_OPENMP"], [], []⟩], []) := by decide
 
 /-- `-fsycl-targets=` replaces the default device pass by the listed ones (store_split with format) -/
-example : (emulate builtinMap [] "icx" ["-fsycl-targets=spir64_gen,nvptx64-nvidia-cuda", "a.cpp"]).toOption.map
+example : (emulate builtinMap {} "icx" ["-fsycl-targets=spir64_gen,nvptx64-nvidia-cuda", "a.cpp"]).toOption.map
       (fun r => r.1.map (·.passName)) = some ["sycl-spir64_gen", "sycl-nvptx64-nvidia-cuda", "default"] := by decide
 
 /-- `nvcc`: implicit `-D__NVCC__ -D__CUDACC__`, default pass `sm_70`; `--gpu-architecture` overrides it
 (regex results supplied as a table), an undeclared architecture is reported and yields no configuration -/
-example : emulate builtinMap [] "nvcc" ["x.cu"] =
+example : emulate builtinMap {} "nvcc" ["x.cu"] =
     .ok ([⟨"sm_70", ["__NVCC__", "__CUDACC__", "__CUDA_ARCH__=700"], [], []⟩,
           ⟨"default", ["__NVCC__", "__CUDACC__"], [], []⟩], []) := by decide
 
-example : emulate builtinMap [(("--gpu-architecture", "sm_80,sm_60"), ["80", "60"])] "nvcc"
+example : emulate builtinMap { table := [(("--gpu-architecture", "sm_80,sm_60"), ["80", "60"])] } "nvcc"
       ["--gpu-architecture=sm_80,sm_60", "-fopenmp", "x.cu"] =
     .ok ([⟨"sm_80", ["__NVCC__", "__CUDACC__", "__CUDA_ARCH__=800"], [], []⟩,
           ⟨"default", ["__NVCC__", "__CUDACC__", "_OPENMP"], [], []⟩], [.badPass "sm_60"]) := by decide
+
+/-- end to end on the regenerated table, regex computed by the model (no table supplied) -/
+example : (emulateRe builtinMap [] "nvcc" ["--gpu-architecture=sm_80,sm_60", "x.cu"]).toOption.map
+      (fun r => (r.1.map (·.passName), r.2)) = some (["sm_80", "default"], [.badPass "sm_60"]) := by decide
 
 /-- alias outcomes on a table extended by a user file: chain through a built-in alias, loop, dangling target -/
 def userAliases : UserFile := .defs [("c++", { aliasOf := some "g++" }), ("a", { aliasOf := some "b" }),
@@ -46,7 +50,7 @@ and adds a compiler; the extended `nvcc` keeps its rules and passes and gains th
 def userExt : List (String × Definition) :=
   [("nvcc", { options := some ["-DEXTRA"] }), ("mycc", { options := some ["-DMY"] })]
 example : (loadBuiltin builtinFiles []).2 = true ∧ userExt.all (·.2.valid) = true ∧ (userExt.map (·.1)).Nodup := by decide
-example : (emulate (loadCompilers builtinFiles (.defs userExt)).1 [] "nvcc" ["x.cu"]).toOption.map (fun r => r.1.map (·.defines)) =
+example : (emulate (loadCompilers builtinFiles (.defs userExt)).1 {} "nvcc" ["x.cu"]).toOption.map (fun r => r.1.map (·.defines)) =
     some [["__NVCC__", "__CUDACC__", "EXTRA", "__CUDA_ARCH__=700"], ["__NVCC__", "__CUDACC__", "EXTRA"]] := by decide
 
 end CbiVerif.C12.Builtin
